@@ -1,6 +1,7 @@
 /- Driver handlers for the search and plugin properties (C11, C12, C13, C15). -/
 import ChessVerif.Drv.Iter
 import ChessVerif.Model.Bot
+import ChessVerif.Model.Referee
 import ChessVerif.Model.SearchDefs
 import ChessVerif.Spec.Mirror
 import ChessVerif.Spec.ScoreNeg
@@ -23,33 +24,51 @@ def parseHist (s : String) : Option (List Board) :=
 def showResult (r : Engine.Result) : String :=
   s!"{showOptMove r.move} {showScore r.score} depth={r.maxDepth} evals={r.evals} polls={r.polls}"
 
+/-- the optional token `pos=1` of `search`, `searchfp`, `evalp`: the engine's `positional` flag
+(absent or `pos=0`: `false`, the shipped configuration; anything else is a malformed request) -/
+def parsePosFlag (toks : List String) : Option Bool :=
+  match kv "pos=" toks with
+  | none => some false
+  | some "0" => some false
+  | some "1" => some true
+  | some _ => none
+
 /-- does `m` deliver checkmate in `p`? -/
 def mates (p : Position) (m : Move) : Bool := p.legal m && (p.apply m).isCheckmate
 
-/-- `search <pos64> hist=<pos64,..> k=<n> prev=<max_depth before>`: exact model result;
+/-- `search <pos64> hist=<pos64,..> k=<n> prev=<max_depth before> [pos=<0|1>]`: exact model result;
 `searchchk <pos64> k=.. res=<mv>,<score>,<firstpass>`: the specification's verdict on an observed result -/
 def handleSearch : List String → Ans
   | p :: rest => withPos p fun b =>
-      match (kv "k=" rest).bind String.toNat?, parseHist ((kv "hist=" rest).getD ""), ((kv "prev=" rest).getD "0").toNat? with
-      | some k, some hist, some prev =>
+      match (kv "k=" rest).bind String.toNat?, parseHist ((kv "hist=" rest).getD ""), ((kv "prev=" rest).getD "0").toNat?,
+        parsePosFlag rest with
+      | some k, some hist, some prev, some pos =>
         (match genTrap b BB.full with
          | some t => t
-         | none => showResult (Engine.search b (buildTable hist) k prev), "-")
-      | _, _, _ => bad
+         | none => showResult (Engine.search pos b (buildTable hist) k prev), "-")
+      | _, _, _, _ => bad
   | _ => bad
 
-/-- `searchfp <pos64> hist=.. k=..`: did the first deepening pass finish before the limit?  The model
+/-- `searchfp <pos64> hist=.. k=.. [pos=<0|1>]`: did the first deepening pass finish before the limit?  The model
 side evaluates the very definition the C11/C12 theorems are stated with (`firstPassFinished`); the
 implementation side is what the harness observed (a completed pass was recorded, or the timeout
 never reported expiry). -/
 def handleSearchFp : List String → Ans
   | p :: rest => withPos p fun b =>
-      match (kv "k=" rest).bind String.toNat?, parseHist ((kv "hist=" rest).getD "") with
-      | some k, some hist =>
+      match (kv "k=" rest).bind String.toNat?, parseHist ((kv "hist=" rest).getD ""), parsePosFlag rest with
+      | some k, some hist, some pos =>
         (match genTrap b BB.full with
          | some t => t
-         | none => toString (Proofs.Search.firstPassFinished b (buildTable hist) k), "-")
-      | _, _ => bad
+         | none => toString (Proofs.Search.firstPassFinished pos b (buildTable hist) k), "-")
+      | _, _, _ => bad
+  | _ => bad
+
+/-- `evalp <pos64> pos=<0|1>`: the static evaluation `Engine::eval` of an engine with `positional = pos` -/
+def handleEvalP : List String → Ans
+  | p :: rest => withPos p fun b =>
+      match parsePosFlag rest with
+      | some pos => (showScore (Engine.eval pos b), "-")
+      | none => bad
   | _ => bad
 
 /-- `minimax <pos64> d=<depth>`: the score a completed deepening pass at `depth` reports (empty
@@ -61,7 +80,7 @@ def handleMinimax : List String → Ans
       | some d =>
         (match genTrap b BB.full with
          | some t => t
-         | none => showScore (Engine.rootValue b [] d), showScore (Spec.negScore (Engine.rootValue b.mirror [] d)))
+         | none => showScore (Engine.rootValue false b [] d), showScore (Spec.negScore (Engine.rootValue false b.mirror [] d)))
       | none => bad
   | _ => bad
 
@@ -80,7 +99,7 @@ def handleMirrorChk : List String → Ans
         (if posEq (Spec.abs m) (Spec.abs b).mirror then [] else ["abs-mirror"]) ++
         (if m.mirror == b then [] else ["mirror-mirror"]) ++
         (if isPerm (MoveGen.mvsOf (MoveGen.legals m)) ((MoveGen.mvsOf (MoveGen.legals b)).map Move.mirror) then [] else ["legals-mirror"]) ++
-        (if Engine.eval m == Spec.negScore (Engine.eval b) then [] else ["eval-mirror"]) ++
+        (if Engine.eval false m == Spec.negScore (Engine.eval false b) then [] else ["eval-mirror"]) ++
         (if Engine.insufficientMaterial m == Engine.insufficientMaterial b then [] else ["insufficient-mirror"]) ++
         (if m.inCheck == b.inCheck then [] else ["inCheck-mirror"]) ++
         (if (MoveGen.mvsOf (MoveGen.legals b)).all (fun mv => { m.moveUnchecked mv.mirror with full := 0 } == { (b.moveUnchecked mv).mirror with full := 0 }) then [] else ["move-mirror"])
@@ -280,5 +299,20 @@ def handleBook : List String → Ans
     let ans (l : List String) := " ".intercalate (ps.map (fun p => if l.contains p then "rest" else "not-a-book-line"))
     (ans ml, ans sl)
   | _ => bad
+
+/-- `referee ks=<k,k,..>`: one game of the referee of `chess-cli bot-fight` between two copies of the modelled plugin
+under the clock `ks` (the poll index at which each evaluation's limit expires): verdict and number of recorded moves -/
+def handleReferee : List String → Ans
+  | rest =>
+    match ((kv "ks=" rest).getD "").splitOn "," |>.mapM String.toNat? with
+    | some ks =>
+      let g := Referee.game ks
+      let r := match g.result with
+        | .checkMate w => s!"checkMate:{if w then "white" else "black"}"
+        | .staleMate => "staleMate"
+        | .didntMove w => s!"didntMove:{if w then "white" else "black"}"
+        | .stillPlaying => "stillPlaying"
+      (s!"{r} moves={g.moves.length}", "-")
+    | none => bad
 
 end Chess.Drv
